@@ -268,6 +268,31 @@ def bounded(chk):
                        list(dedup.values()), cases[:3] + cases[-2:])
 
 
+def bounded_limits(chk):
+    """page texts at the expander's own limits: braces nested deeper than the interpreter's stack, arguments / names
+    beyond the 256 KiB cap (directly, or built by a handful of argument-doubling templates)"""
+    cases = [("332 unclosed '{{a|'", "{{a|" * 332), ("249 nested '{{a|..}}'", "{{a|" * 249 + "x" + "}}" * 249),
+             ("331 nested '{{{..}}}'", "{{{" * 331 + "x" + "}}}" * 331), ("249 nested '{{lc:..}}'", "{{lc:" * 249 + "x" + "}}" * 249),
+             ("495 nested '{{#if:1|..}}'", "{{#if:1|" * 495 + "x" + "}}" * 495), ("2000 unclosed '{{{'", "{{{" * 2000),
+             ("600 nested '[[..]]' in a template argument", "{{a|" + "[[" * 600 + "x" + "]]" * 600 + "}}"),
+             ("{{lc:<300000 x>}}", "{{lc:" + "x" * 300000 + "}}"), ("{{T|<300000 x>}}", "{{T|" + "x" * 300000 + "}}"),
+             ("{{lc:{{d18|x}}}} with 19 argument-doubling templates", "{{lc:{{d18|x}}}}")]
+    saved = _DB.templates
+    _DB.templates = dict({f"d{i}": "{{d%d|{{{1}}}{{{1}}}}}" % (i - 1) for i in range(1, 19)}, d0="{{{1}}}{{{1}}}", T="t {{{1}}}")
+    fails = {}
+    try:
+        for name, txt in cases:
+            _t, bad = _one(txt)
+            if bad:
+                cls = "limits:" + bad.split(":")[0].replace("raised ", "")
+                fails.setdefault(cls, {"detail": f"{name}: {bad}", "witness": {"wikitext": txt if len(txt) < 300 else name, "problem": bad}, "class": cls})
+    finally:
+        _DB.templates = saved
+    chk.bounded_result("page_texts_at_the_expander_limits", len(cases), len(cases), True,
+                       "10 page texts: braces / links nested 249..2000 deep, open or closed; arguments and names beyond the 256 KiB cap, written out or built by 19 doubling templates; contract as above",
+                       list(fails.values()))
+
+
 def run(chk):
     p1_flatten(chk)
     p2_arity(chk)
@@ -275,6 +300,7 @@ def run(chk):
     p4_recursion_transparency(chk)
     p5_time_postprocessor(chk)
     bounded(chk)
+    bounded_limits(chk)
     chk.assumptions += [
         "Node.flatten implementations (nodes.pyx) satisfy the callee contract used for flatten's proof: they change recursion_count only through nested flatten calls",
         "compiled evaluate.pyx behaves as its source read as Python (no cdef in flatten)",
